@@ -312,56 +312,26 @@ def current_year():
 # the real code.
 
 
-# which of the proposed repairs (findings/C20-*.patch) the tree under test already contains;
-# determined once per run by `probe_repairs` from six sentinel inputs.  The model variant that
-# corresponds is used for the whole run (the Lean model has the pinned and the repaired form of
-# each of these places, and theorems about both).
-FLAGS = {"url_cred": False, "url_params": False, "list": False, "mlsd": False}
-
-
-def probe_repairs(rep):
-    FLAGS["url_cred"] = not impl_url("x://@h").startswith("err Leak")
-    FLAGS["url_params"] = impl_url("x://h?k=%2541").endswith(" " + alist([("k", "%41")]) + " ~")
-    big = "-rw-r--r-- 1 u g " + "9" * 4301 + " Jan 01 2020 x"
-    y = current_year()
-    leap = y % 4 == 0 and (y % 100 != 0 or y % 400 == 0)
-    l1 = not impl_line(big).startswith("err")
-    l2 = leap or not impl_line("-rw-r--r-- 1 u g 10 Feb 29 12:00 x").startswith("err")
-    FLAGS["list"] = l1 and l2
-    m1 = not impl_mlsd(["size=\xb2; f"]).startswith("err")
-    m2 = not impl_mlsd(["modify=20201301000000; f"]).startswith("err")
-    FLAGS["mlsd"] = m1 and m2
-    rep.extra["repairs_present_in_tree"] = dict(FLAGS)
-    if (l1 != l2 and not leap) or m1 != m2:
-        rep.extra["repairs_partially_applied"] = {"list": [l1, l2], "mlsd": [m1, m2]}
-
-
-def request(case, fixed=None):
+def request(case):
     k, a = case
-    if fixed is None:
-        fixed = FLAGS["list"] if k in ("line", "list", "time.linux", "time.nt") else FLAGS["mlsd"]
-    fx = " fixed" if fixed else ""
     if k == "url":
-        cmd = {(False, False): "parse.url", (True, False): "parse.urlfixed", (False, True): "parse.urlparams",
-               (True, True): "parse.urlrepaired"}[(FLAGS["url_cred"], FLAGS["url_params"])]
-        return cmd + " " + hx(a)
+        return "parse.url " + hx(a)
     if k == "re":
         return "parse.re " + hx(a)
     if k == "open":
-        v = ("c" if FLAGS["url_cred"] else "") + ("p" if FLAGS["url_params"] else "")
-        return "parse.open %s %s %s %s" % (hxlist(KNOWN_PROTOCOLS), hx(a[0]), hx(a[1]), v or "-")
+        return "parse.open %s %s %s" % (hxlist(KNOWN_PROTOCOLS), hx(a[0]), hx(a[1]))
     if k in ("unquote", "quote", "urlquote", "hasdrive", "feat", "facts", "int", "strip", "lower", "splitlines", "cls", "perms"):
         return "parse.%s %s" % (k, hx(a))
     if k == "line":
-        return "parse.line %s %d%s" % (hx(a[0]), a[1], fx)
+        return "parse.line %s %d" % (hx(a[0]), a[1])
     if k == "list":
-        return "parse.list %s %d%s" % (hxlist(a[0]), a[1], fx)
+        return "parse.list %s %d" % (hxlist(a[0]), a[1])
     if k in ("time.linux", "time.nt"):
-        return "parse.%s %s %d%s" % (k, hx(a[0]), a[1], fx)
+        return "parse.%s %s %d" % (k, hx(a[0]), a[1])
     if k == "mlsd":
-        return "parse.mlsd %s%s" % (hxlist(a), fx)
+        return "parse.mlsd " + hxlist(a)
     if k == "ftptime":
-        return "parse.ftptime %s%s" % (hx(a), fx)
+        return "parse.ftptime " + hx(a)
     if k == "epoch":
         return "info.epoch %d %d %d %d %d %d" % tuple(a)
     raise AssertionError(k)
@@ -456,74 +426,13 @@ def nfc_fix(model_reply):
 TOTAL_KINDS_ALLOWED = {"url": ("err ParseError",), "open": ("err ParseError", "err Unsupported"), "epoch": ("err ValueError",)}
 
 
-_LIVE = []
-
-
-class Live:
-    """interactive driver client: every request is followed by a `flush` line"""
-
-    def __init__(self):
-        import subprocess
-
-        self.p = subprocess.Popen([vlib.DRIVER], stdin=subprocess.PIPE, stdout=subprocess.PIPE)
-
-    def ask(self, line):
-        self.p.stdin.write(line.encode("ascii") + b"\nflush\n")
-        self.p.stdin.flush()
-        out = self.p.stdout.readline()
-        self.p.stdout.readline()
-        if not out:
-            raise vlib.Infra("driver died on: " + line[:200])
-        return out.decode("ascii").rstrip("\n")
-
-    def close(self):
-        try:
-            self.p.stdin.close()
-            self.p.wait(timeout=10)
-        except Exception:
-            self.p.kill()
-
-
-def ask(_drv, line):
-    if not _LIVE:
-        _LIVE.append(Live())
-    return _LIVE[0].ask(line)
-
-
-def signature_of(drv, case, impl_reply):
-    """class of an undocumented exception, computed from the model (finding signatures)."""
-    k, a = case
+def signature_of(case, impl_reply):
+    """signature of an undocumented exception: function and exception class"""
+    fn = {"url": "parse_fs_url", "open": "Registry.open", "line": "_ftp_parse.parse_line", "list": "_ftp_parse.parse",
+          "time.linux": "_ftp_parse._parse_time", "time.nt": "_ftp_parse._parse_time", "mlsd": "FTPFS._parse_mlsx",
+          "facts": "FTPFS._parse_facts", "ftptime": "FTPFS._parse_ftp_time", "feat": "FTPFS._parse_features"}.get(case[0], case[0])
     exc = impl_reply.split(":", 1)[1] if impl_reply.startswith("err Leak:") else impl_reply[4:]
-    if k in ("url", "open"):
-        if k == "open":
-            a = a[1] if "://" in a[1] else a[0] + "://" + a[1]
-        g = ask(drv, "parse.re " + hx(a))
-        if g != "ok N" and g.split(" ")[2] == "-" and exc == "AttributeError":
-            return "C20/parse_fs_url/empty-credentials/AttributeError"
-        return "C20/parse_fs_url/%s/unclassified" % exc
-    if k in ("line", "list", "time.linux", "time.nt"):
-        lines = a[0] if k == "list" else [a[0]]
-        if k.startswith("time."):
-            return "C20/_ftp_parse._parse_time/invalid-date-with-current-year/%s" % exc
-        for l in lines:
-            why = ask(drv, "parse.listwhy %s %d" % (hx(l), a[1]))
-            if why == "ok time" and exc == "ValueError":
-                return "C20/_ftp_parse._parse_time/invalid-date-with-current-year/ValueError"
-            if why == "ok digits" and exc == "ValueError":
-                return "C20/_ftp_parse/size-int-digit-limit/ValueError"
-        return "C20/_ftp_parse/%s/unclassified" % exc
-    if k == "mlsd":
-        for l in a:
-            why = ask(drv, "parse.mlsdwhy " + hx(l))
-            if why == "ok size" and exc == "ValueError":
-                return "C20/FTPFS._parse_mlsx/size-isdigit-but-not-int/ValueError"
-            if why == "ok timegm" and exc == "ValueError":
-                return "C20/FTPFS._parse_ftp_time/timegm-out-of-range/ValueError"
-        return "C20/FTPFS._parse_mlsx/%s/unclassified" % exc
-    if k == "ftptime":
-        if exc == "ValueError":
-            return "C20/FTPFS._parse_ftp_time/timegm-out-of-range/ValueError"
-    return "C20/%s/%s/unclassified" % (k, exc)
+    return "C20/%s/raises/%s" % (fn, exc)
 
 
 def is_undocumented(case, impl_reply):
@@ -537,7 +446,6 @@ class Engine:
     def __init__(self, rep, drv):
         self.rep = rep
         self.drv = drv
-        self.fixed_seen = {}
 
     def check(self, cases, tag, expect=None):
         """run cases on both sides.  `expect[i]` (optional) is the reply the *property* demands
@@ -570,22 +478,17 @@ class Engine:
         rep.disagreements_checked += 1
         case = {"kind": c[0], "arg": c[1], "model": model, "impl": got, "expected": want, "stream": tag}
         if is_undocumented(c, got):
-            sig = signature_of(drv, c, got)
+            sig = signature_of(c, got)
             if rep.match_known(sig) is not None or self.room(True):
                 rep.violation(case, "%s raises %s on %r (the property allows no such exception)" % (c[0], got[4:], c[1]),
                               found_input=True, signature=sig)
-            if got.replace("Leak:AttributeError", "Leak") == model:
-                return  # the model predicted exactly this; the correspondence itself is intact
-            if model.startswith("err"):
-                return
+            return
         if want is not None and got != want and not got.startswith("err"):
             if self.room(True):
                 rep.violation(case, "%s does not return the parts the input was built from: %r -> %s, expected %s" % (c[0], c[1], got, want),
                               found_input=True, signature="C20/%s/unfaithful" % c[0])
             return
         if got == model:
-            return
-        if got.startswith("err") and is_undocumented(c, got):
             return
         if self.room(False):
             rep.violation(case, "correspondence broke: %s on %r: model %s, impl %s; no input failing the property itself was found here"
@@ -646,9 +549,9 @@ def rand_parts(rng):
     return (proto, user, pw, res, list(params.items()), path)
 
 
-def build_request(parts, std=False):
+def build_request(parts):
     proto, user, pw, res, params, path = parts
-    return "parse.build%s %s %s %s %s %s %s" % ("std" if std else "", hx(proto), opt(user), opt(pw), hx(res), alist(params), opt(path))
+    return "parse.build %s %s %s %s %s %s" % (hx(proto), opt(user), opt(pw), hx(res), alist(params), opt(path))
 
 
 def parts_reply(parts):
@@ -720,10 +623,7 @@ def run_urls(eng, tier, rng, deep):
     # generated-from-parts round trips (the builder is the model's; the parser is the real one)
     N = 6000 if tier == "quick" else 120000
     parts = [rand_parts(rng) for _ in range(N)]
-    # (with the parameter repair in the tree the inverse of the parser is the conventional
-    # single encoding, theorem url_roundtrip_std_repaired; on the pinned tree it is the builder
-    # that encodes values twice, theorem url_roundtrip)
-    built = drv.batch([build_request(p, std=FLAGS["url_params"]) for p in parts])
+    built = drv.batch([build_request(p) for p in parts])
     cases, expect = [], []
     for p, b in zip(parts, built):
         assert b.startswith("ok "), b
@@ -733,15 +633,6 @@ def run_urls(eng, tier, rng, deep):
     eng.check(cases, "url-from-parts", expect)
     rep.sample({"built_from": repr(parts[0]), "url": cases[0][1], "parsed": impl_url(cases[0][1])})
     directed_excluded_points(eng)
-    if FLAGS["url_params"]:
-        return
-    # the conventional single encoding of parameter values: faithful unless a value contains '%'
-    std = drv.batch([build_request(p, std=True) for p in parts])
-    cases, expect = [], []
-    for p, b in zip(parts, std):
-        cases.append(("url", vlib.unhx(b[3:])))
-        expect.append(parts_reply(p))
-    eng_std_check(eng, cases, expect, parts)
 
 
 EXCLUDED_POINTS = [
@@ -759,7 +650,7 @@ EXCLUDED_POINTS = [
 
 def directed_excluded_points(eng):
     rep, drv = eng.rep, eng.drv
-    built = drv.batch([build_request(p, std=FLAGS["url_params"]) for _w, p in EXCLUDED_POINTS])
+    built = drv.batch([build_request(p) for _w, p in EXCLUDED_POINTS])
     out = []
     cases = []
     for (why, parts), b in zip(EXCLUDED_POINTS, built):
@@ -773,29 +664,6 @@ def directed_excluded_points(eng):
                           found_input=False, signature="C20/url/wfParts-hypothesis/" + why)
     eng.check(cases, "excluded-points")
     rep.extra["wfParts_excluded_points"] = out
-
-
-def eng_std_check(eng, cases, expect, parts):
-    """URLs whose parameter values are percent-encoded once (urlencode style).  parse_fs_url
-    decodes values twice, so a value that still contains a %XX escape after one decoding is not
-    recovered: reported under one signature."""
-    rep, drv = eng.rep, eng.drv
-    replies = drv.batch([request(c) for c in cases])
-    for c, model, want, p in zip(cases, replies, expect, parts):
-        got = impl(c)
-        rep.evaluations += 1
-        if got != model:
-            eng.disagree(c, model, got, None, "url-from-parts-std")
-            continue
-        if got != want:
-            rep.count("std-encoding:value-decoded-twice")
-            if FLAGS["url_params"] or not any("%" in v for _k, v in p[4]):
-                eng.disagree(c, model, got, want, "url-from-parts-std")
-            elif len(rep.violations) < MAXVIOL:
-                rep.violation({"kind": "url", "arg": c[1], "parts": repr(p), "impl": got, "expected": want},
-                              "parse_fs_url decodes parameter values twice: %r built from %r parses to %s" % (c[1], p[4], got),
-                              found_input=True, signature="C20/parse_fs_url/params-unquoted-twice")
-    rep.programs += len(cases)
 
 
 # ----------------------------------------------------------------------------- FTP generators
@@ -1165,24 +1033,9 @@ def faithful_feat(eng, rng, n):
 # ----------------------------------------------------------------------------- run
 
 
-def load_additions(rep):
-    """open findings proposed by this package (findings/known_findings_additions.json) count as
-    open until they are merged into known_findings.json (entries are keyed by signature)."""
-    import json
-
-    path = os.path.join(vlib.VERIF, "findings", "known_findings_additions.json")
-    if os.path.exists(path):
-        have = {f["signature"] for f in rep.open_findings}
-        for f in json.load(open(path, encoding="utf-8")):
-            if f.get("property") == rep.prop_id and f["signature"] not in have:
-                rep.open_findings.append(f)
-
-
 def run(rep, tier, seed, deep=False):
     os.environ["TZ"] = "UTC"
     time.tzset()
-    load_additions(rep)
-    probe_repairs(rep)
     drv = vlib.Driver()
     eng = Engine(rep, drv)
     rng = vlib.rng_for(seed, "c20")
@@ -1217,9 +1070,6 @@ def run(rep, tier, seed, deep=False):
     ]
     run_urls(eng, tier, rng, deep)
     run_ftp(eng, tier, vlib.rng_for(seed, "c20-ftp"), deep)
-    for l in _LIVE:
-        l.close()
-    del _LIVE[:]
 
 
 def replay(rep, case):
@@ -1227,8 +1077,6 @@ def replay(rep, case):
     known-finding entry) on the model and on the real code; exit status 1 if it still fails."""
     os.environ["TZ"] = "UTC"
     time.tzset()
-    load_additions(rep)
-    probe_repairs(rep)
     c = case.get("case", case)
     kind, arg = c["kind"], c["arg"]
     if kind in ("line", "time.linux", "time.nt"):
@@ -1247,13 +1095,10 @@ def replay(rep, case):
     print("impl: ", got[:400])
     bad = []
     if is_undocumented(cs, got):
-        bad.append("undocumented exception (%s)" % signature_of(drv, cs, got))
-    if model != got.replace("Leak:AttributeError", "Leak"):
+        bad.append("undocumented exception (%s)" % signature_of(cs, got))
+    if model != got:
         bad.append("model and implementation disagree")
     if c.get("expected") not in (None, got):
         bad.append("does not return the parts the input was built from (expected %s)" % c["expected"][:300])
-    for l in _LIVE:
-        l.close()
-    del _LIVE[:]
     print("still failing: " + "; ".join(bad) if bad else "passes now")
     return 1 if bad else 0
